@@ -951,25 +951,25 @@ e_be!(e_be_set_vring_enable_plain, 18, 0x1, 0, 0);
 e_be!(e_be_set_backend_req_fd_nr, 21, 0x9, 0, 0);
 // @harness props=C01,C02,C04,C05,C07,C09 tier=thorough reach=off timeout=400 bound="request 21 (SET_BACKEND_REQ_FD), header flags 0x1 (version 1), declared size = body size; body bytes, 0..=2 attached descriptors, three 64-bit negotiation words and handler outcome symbolic; one request" stubs="vmm-sys-util raw_recvmsg/raw_sendmsg (ghost stream socket), libc::close + OwnedFd::drop (ghost descriptor table), handle_alloc_error (assume false)"
 e_be!(e_be_set_backend_req_fd_plain, 21, 0x1, 0, 0);
-// @harness props=C01,C02,C03,C04,C05,C07 tier=quick reach=off timeout=400 bound="request 24 (GET_CONFIG), header flags 0x9 (version 1, NEED_REPLY), declared size = body size; body bytes, 0..=2 attached descriptors, three 64-bit negotiation words and handler outcome symbolic; one request" stubs="vmm-sys-util raw_recvmsg/raw_sendmsg (ghost stream socket), libc::close + OwnedFd::drop (ghost descriptor table), handle_alloc_error (assume false)"
+// @harness props=C01,C02,C03,C04,C05,C07 tier=quick reach=off timeout=1200 bound="request 24 (GET_CONFIG), header flags 0x9 (version 1, NEED_REPLY), declared size = body size; body bytes, 0..=2 attached descriptors, three 64-bit negotiation words and handler outcome symbolic; one request" stubs="vmm-sys-util raw_recvmsg/raw_sendmsg (ghost stream socket), libc::close + OwnedFd::drop (ghost descriptor table), handle_alloc_error (assume false)"
 e_be!(e_be_get_config_ret4_nr, 24, 0x9, 0, 68);
-// @harness props=C01,C02,C03,C04,C05,C07 tier=thorough reach=off timeout=400 bound="request 24 (GET_CONFIG), header flags 0x1 (version 1), declared size = body size; body bytes, 0..=2 attached descriptors, three 64-bit negotiation words and handler outcome symbolic; one request" stubs="vmm-sys-util raw_recvmsg/raw_sendmsg (ghost stream socket), libc::close + OwnedFd::drop (ghost descriptor table), handle_alloc_error (assume false)"
+// @harness props=C01,C02,C03,C04,C05,C07 tier=thorough reach=off timeout=1200 bound="request 24 (GET_CONFIG), header flags 0x1 (version 1), declared size = body size; body bytes, 0..=2 attached descriptors, three 64-bit negotiation words and handler outcome symbolic; one request" stubs="vmm-sys-util raw_recvmsg/raw_sendmsg (ghost stream socket), libc::close + OwnedFd::drop (ghost descriptor table), handle_alloc_error (assume false)"
 e_be!(e_be_get_config_ret4_plain, 24, 0x1, 0, 68);
-// @harness props=C01,C02,C03,C04,C05,C07 tier=thorough reach=off timeout=400 bound="request 24 (GET_CONFIG), header flags 0x9 (version 1, NEED_REPLY), declared size = body size; body bytes, 0..=2 attached descriptors, three 64-bit negotiation words and handler outcome symbolic; one request" stubs="vmm-sys-util raw_recvmsg/raw_sendmsg (ghost stream socket), libc::close + OwnedFd::drop (ghost descriptor table), handle_alloc_error (assume false)"
+// @harness props=C01,C02,C03,C04,C05,C07 tier=thorough reach=off timeout=1200 bound="request 24 (GET_CONFIG), header flags 0x9 (version 1, NEED_REPLY), declared size = body size; body bytes, 0..=2 attached descriptors, three 64-bit negotiation words and handler outcome symbolic; one request" stubs="vmm-sys-util raw_recvmsg/raw_sendmsg (ghost stream socket), libc::close + OwnedFd::drop (ghost descriptor table), handle_alloc_error (assume false)"
 e_be!(e_be_get_config_ret3_nr, 24, 0x9, 0, 52);
-// @harness props=C01,C02,C03,C04,C05,C07 tier=thorough reach=off timeout=400 bound="request 24 (GET_CONFIG), header flags 0x1 (version 1), declared size = body size; body bytes, 0..=2 attached descriptors, three 64-bit negotiation words and handler outcome symbolic; one request" stubs="vmm-sys-util raw_recvmsg/raw_sendmsg (ghost stream socket), libc::close + OwnedFd::drop (ghost descriptor table), handle_alloc_error (assume false)"
+// @harness props=C01,C02,C03,C04,C05,C07 tier=thorough reach=off timeout=1200 bound="request 24 (GET_CONFIG), header flags 0x1 (version 1), declared size = body size; body bytes, 0..=2 attached descriptors, three 64-bit negotiation words and handler outcome symbolic; one request" stubs="vmm-sys-util raw_recvmsg/raw_sendmsg (ghost stream socket), libc::close + OwnedFd::drop (ghost descriptor table), handle_alloc_error (assume false)"
 e_be!(e_be_get_config_ret3_plain, 24, 0x1, 0, 52);
-// @harness props=C01,C02,C03,C04,C05,C07 tier=quick reach=off timeout=400 bound="request 24 (GET_CONFIG), header flags 0x9 (version 1, NEED_REPLY), declared size = body size; body bytes, 0..=2 attached descriptors, three 64-bit negotiation words and handler outcome symbolic; one request" stubs="vmm-sys-util raw_recvmsg/raw_sendmsg (ghost stream socket), libc::close + OwnedFd::drop (ghost descriptor table), handle_alloc_error (assume false)"
+// @harness props=C01,C02,C03,C04,C05,C07 tier=quick reach=off timeout=1200 bound="request 24 (GET_CONFIG), header flags 0x9 (version 1, NEED_REPLY), declared size = body size; body bytes, 0..=2 attached descriptors, three 64-bit negotiation words and handler outcome symbolic; one request" stubs="vmm-sys-util raw_recvmsg/raw_sendmsg (ghost stream socket), libc::close + OwnedFd::drop (ghost descriptor table), handle_alloc_error (assume false)"
 e_be!(e_be_get_config_ret5_nr, 24, 0x9, 0, 84);
-// @harness props=C01,C02,C03,C04,C05,C07 tier=thorough reach=off timeout=400 bound="request 24 (GET_CONFIG), header flags 0x1 (version 1), declared size = body size; body bytes, 0..=2 attached descriptors, three 64-bit negotiation words and handler outcome symbolic; one request" stubs="vmm-sys-util raw_recvmsg/raw_sendmsg (ghost stream socket), libc::close + OwnedFd::drop (ghost descriptor table), handle_alloc_error (assume false)"
+// @harness props=C01,C02,C03,C04,C05,C07 tier=thorough reach=off timeout=1200 bound="request 24 (GET_CONFIG), header flags 0x1 (version 1), declared size = body size; body bytes, 0..=2 attached descriptors, three 64-bit negotiation words and handler outcome symbolic; one request" stubs="vmm-sys-util raw_recvmsg/raw_sendmsg (ghost stream socket), libc::close + OwnedFd::drop (ghost descriptor table), handle_alloc_error (assume false)"
 e_be!(e_be_get_config_ret5_plain, 24, 0x1, 0, 84);
-// @harness props=C01,C02,C03,C04,C05,C07 tier=quick reach=off timeout=400 bound="request 24 (GET_CONFIG), header flags 0x9 (version 1, NEED_REPLY), declared size = body size, body size word concrete (= payload length); body bytes, 0..=2 attached descriptors, three 64-bit negotiation words and handler outcome symbolic; one request" stubs="vmm-sys-util raw_recvmsg/raw_sendmsg (ghost stream socket), libc::close + OwnedFd::drop (ghost descriptor table), handle_alloc_error (assume false)"
+// @harness props=C01,C02,C03,C04,C05,C07 tier=quick reach=off timeout=1200 mem=28 bound="request 24 (GET_CONFIG), header flags 0x9 (version 1, NEED_REPLY), declared size = body size, body size word concrete (= payload length); body bytes, 0..=2 attached descriptors, three 64-bit negotiation words and handler outcome symbolic; one request" stubs="vmm-sys-util raw_recvmsg/raw_sendmsg (ghost stream socket), libc::close + OwnedFd::drop (ghost descriptor table), handle_alloc_error (assume false)"
 e_be!(e_be_get_config_ret5c_nr, 24, 0x9, 0, 596);
-// @harness props=C01,C02,C03,C04,C05,C07 tier=thorough reach=off timeout=400 bound="request 24 (GET_CONFIG), header flags 0x1 (version 1), declared size = body size, body size word concrete (= payload length); body bytes, 0..=2 attached descriptors, three 64-bit negotiation words and handler outcome symbolic; one request" stubs="vmm-sys-util raw_recvmsg/raw_sendmsg (ghost stream socket), libc::close + OwnedFd::drop (ghost descriptor table), handle_alloc_error (assume false)"
+// @harness props=C01,C02,C03,C04,C05,C07 tier=thorough reach=off timeout=1200 mem=28 bound="request 24 (GET_CONFIG), header flags 0x1 (version 1), declared size = body size, body size word concrete (= payload length); body bytes, 0..=2 attached descriptors, three 64-bit negotiation words and handler outcome symbolic; one request" stubs="vmm-sys-util raw_recvmsg/raw_sendmsg (ghost stream socket), libc::close + OwnedFd::drop (ghost descriptor table), handle_alloc_error (assume false)"
 e_be!(e_be_get_config_ret5c_plain, 24, 0x1, 0, 596);
-// @harness props=C01,C02,C03,C04,C05,C07 tier=quick reach=off timeout=400 bound="request 24 (GET_CONFIG), header flags 0x9 (version 1, NEED_REPLY), declared size = body size; body bytes, 0..=2 attached descriptors, three 64-bit negotiation words and handler outcome symbolic; one request" stubs="vmm-sys-util raw_recvmsg/raw_sendmsg (ghost stream socket), libc::close + OwnedFd::drop (ghost descriptor table), handle_alloc_error (assume false)"
+// @harness props=C01,C02,C03,C04,C05,C07 tier=quick reach=off timeout=1200 bound="request 24 (GET_CONFIG), header flags 0x9 (version 1, NEED_REPLY), declared size = body size; body bytes, 0..=2 attached descriptors, three 64-bit negotiation words and handler outcome symbolic; one request" stubs="vmm-sys-util raw_recvmsg/raw_sendmsg (ghost stream socket), libc::close + OwnedFd::drop (ghost descriptor table), handle_alloc_error (assume false)"
 e_be!(e_be_get_config_fail_nr, 24, 0x9, 0, 324);
-// @harness props=C01,C02,C03,C04,C05,C07 tier=thorough reach=off timeout=400 bound="request 24 (GET_CONFIG), header flags 0x1 (version 1), declared size = body size; body bytes, 0..=2 attached descriptors, three 64-bit negotiation words and handler outcome symbolic; one request" stubs="vmm-sys-util raw_recvmsg/raw_sendmsg (ghost stream socket), libc::close + OwnedFd::drop (ghost descriptor table), handle_alloc_error (assume false)"
+// @harness props=C01,C02,C03,C04,C05,C07 tier=thorough reach=off timeout=1200 bound="request 24 (GET_CONFIG), header flags 0x1 (version 1), declared size = body size; body bytes, 0..=2 attached descriptors, three 64-bit negotiation words and handler outcome symbolic; one request" stubs="vmm-sys-util raw_recvmsg/raw_sendmsg (ghost stream socket), libc::close + OwnedFd::drop (ghost descriptor table), handle_alloc_error (assume false)"
 e_be!(e_be_get_config_fail_plain, 24, 0x1, 0, 324);
 // @harness props=C01,C02,C04,C05,C07 tier=quick thorough_for=C01 reach=off timeout=400 bound="request 25 (SET_CONFIG), header flags 0x9 (version 1, NEED_REPLY), declared size = body size; body bytes, 0..=2 attached descriptors, three 64-bit negotiation words and handler outcome symbolic; one request" stubs="vmm-sys-util raw_recvmsg/raw_sendmsg (ghost stream socket), libc::close + OwnedFd::drop (ghost descriptor table), handle_alloc_error (assume false)"
 e_be!(e_be_set_config_nr, 25, 0x9, 0, 4);
